@@ -90,7 +90,7 @@ def run(design, steps, out, label="design", check_doc=None):
                     return False
             return True
         ev_inputs(ref.base.vals[:spec.ni])
-        ev.set("clk", 0)
+        ev.set("clk", bd.idle)
         if bd.cd.rst is not None:
             ev.set("rst", 0)
         ev.step()
@@ -109,15 +109,15 @@ def run(design, steps, out, label="design", check_doc=None):
                     ctx.set(bd2.cd.rst, 1)
                     ev.set("rst", 1)
                     ev.step()
-                ctx.set(bd2.cd.clk, 1)
-                ev.set("clk", 1)
+                ctx.set(bd2.cd.clk, bd2.act)
+                ev.set("clk", bd2.act)
                 ev.step()
                 ref.clock_edge(rst)
                 # right after the active edge (before anything else happens) everything has settled
                 if not compare(n):
                     return
-                ctx.set(bd2.cd.clk, 0)
-                ev.set("clk", 0)
+                ctx.set(bd2.cd.clk, bd2.idle)
+                ev.set("clk", bd2.idle)
                 ev.step()
                 if rst:
                     ctx.set(bd2.cd.rst, 0)
